@@ -526,7 +526,18 @@ func genDispatch() map[string]any {
 	}
 	b.WriteString("]\n\nend AM.Gen\n")
 	write("Dispatch.lean", b.String())
-	return map[string]any{"dispatch": main, "userDispatch": user, "fnIncs": fis}
+	// the bodies of the functions the two tables name
+	var fnNames []string
+	seenFn := map[string]bool{}
+	for _, cs := range [][]dcase{main, user} {
+		for _, c := range cs {
+			if !seenFn[c.Fn] && !strings.HasSuffix(c.Fn, "()") {
+				seenFn[c.Fn] = true
+				fnNames = append(fnNames, c.Fn)
+			}
+		}
+	}
+	return map[string]any{"dispatch": main, "userDispatch": user, "fnIncs": fis, "entries": genEntries(fnNames)}
 }
 
 // ---------- constants and blocking facts ----------
